@@ -196,14 +196,26 @@ Fixpoint upd_fund (fs : list fund) (owner : N) (nf : option fund) : list fund :=
   | f :: r => if f_owner f =? owner then (match nf with Some x => x :: r | None => r end) else f :: upd_fund r owner nf
   end.
 
-(* unlock height saved by ApplyUnstake under the transaction id when it dropped an emptied fund *)
-Definition saved_unlock (l : ledger) (txid id signer : N) : option N :=
+(* position of the first fund of [owner] *)
+Fixpoint fund_index (fs : list fund) (owner : N) : nat :=
+  match fs with [] => O | f :: r => if f_owner f =? owner then O else S (fund_index r owner) end.
+(* [x] placed before position [i] (at the end when the list is shorter) *)
+Definition insert_at (i : nat) (x : fund) (fs : list fund) : list fund := firstn i fs ++ x :: skipn i fs.
+
+(* unlock height and position of the signer's fund in the pool record saved by ApplyUnstake under the transaction id
+   when it dropped the emptied fund *)
+Definition saved_fund (l : ledger) (txid id signer : N) : option (N * nat) :=
   match nget (dhist l) txid with
   | Some old => if d_id old =? id then
-                  match find_fund (d_funds old) signer with Some f => Some (f_unlock f) | None => None end
+                  match find_fund (d_funds old) signer with
+                  | Some f => Some (f_unlock f, fund_index (d_funds old) signer)
+                  | None => None
+                  end
                 else None
   | None => None
   end.
+Definition saved_unlock (l : ledger) (txid id signer : N) : option N :=
+  match saved_fund l txid id signer with Some (u, _) => Some u | None => None end.
 
 Definition apply_stake (l : ledger) (amt id prev_unlock signer top_h txid : N) (reverse : bool) : res ledger :=
   d <- of_opt (get_dlg l id) 301 ;;
@@ -214,11 +226,12 @@ Definition apply_stake (l : ledger) (amt id prev_unlock signer top_h txid : N) (
                  amt' <- of_opt (safe_add (f_amt f) amt) 303 ;;
                  Ok (upd_fund (d_funds d) signer (Some (mkfund signer amt' unlock')))
              | None =>
-                 let unlock := match (if reverse then saved_unlock l txid (d_id d) signer else None) with
-                               | Some u => u
-                               | None => wadd top_h (unlock_time cfg)
-                               end in
-                 Ok (d_funds d ++ [mkfund signer amt unlock])
+                 (* undoing an unstake that dropped the emptied fund: the fund comes back with the unlock height and
+                    at the place it had; otherwise a new fund goes to the end *)
+                 Ok (match (if reverse then saved_fund l txid (d_id d) signer else None) with
+                     | Some (u, i) => insert_at i (mkfund signer amt u) (d_funds d)
+                     | None => d_funds d ++ [mkfund signer amt (wadd top_h (unlock_time cfg))]
+                     end)
              end) ;;
   l1 <- stats_staked l amt ;;
   Ok (put_dlg l1 (mkdlg (d_id d) (d_owner d) (d_name d) funds')).
